@@ -187,6 +187,7 @@ class Sim:
         self.problems = []         # (key, expected, observed)
         self.frames = {}           # (bits,value) -> (tid, name, cmd)
         self.hang = False
+        self.spin = False
         self.stopped = False
         self.late = False
         self.waiting = False       # ended with callers legitimately waiting for an absent device
@@ -383,6 +384,11 @@ class Sim:
         except asyncio.CancelledError:
             c.result = ("cancelled", None)
         except BaseException as e:  # noqa
+            if type(e).__name__ == "Spin":
+                # the watchdog of Sim.run fired inside this caller: it was spinning and never completed
+                self.spin = True
+                self.rec(c.tid, "spin")
+                return
             c.result = ("err", type(e).__name__)
         c.done = True
         c.t_done = self.loop.time()
@@ -527,19 +533,31 @@ class Sim:
 
     # ---- the run ----------------------------------------------------------------------
     def run(self, chooser, max_steps=4000):
+        import common
         self.loop = VLoop()
         asyncio.set_event_loop(self.loop)
         try:
-            self.loop.run_until_complete(self._main(chooser, max_steps))
-            # let cancelled / finished tasks unwind
-            pend = [t for t in asyncio.all_tasks(self.loop) if not t.done()]
-            for t in pend:
-                t.cancel()
-            if pend:
-                self.loop.run_until_complete(asyncio.gather(*pend, return_exceptions=True))
+            with common.watchdog(self.cfg.get("spin_limit_s", 8)):
+                self.loop.run_until_complete(self._main(chooser, max_steps))
+                # let cancelled / finished tasks unwind
+                pend = [t for t in asyncio.all_tasks(self.loop) if not t.done()]
+                for t in pend:
+                    t.cancel()
+                if pend:
+                    self.loop.run_until_complete(asyncio.gather(*pend, return_exceptions=True))
+        except common.Spin:
+            # the code under test ran for many seconds of REAL time without ever returning to the event loop
+            # (virtual time costs nothing): a busy loop.  Nobody can complete any more.
+            self.hang = True
+            self.spin = True
+            self.rec("env", "spin")
+            self.stopped = True
         finally:
             asyncio.set_event_loop(None)
-            self.loop.close()
+            try:
+                self.loop.close()
+            except BaseException:   # noqa
+                pass
         return self
 
     async def _main(self, chooser, max_steps):
@@ -556,6 +574,9 @@ class Sim:
         follow = self.cfg.get("follow", 0)
         while True:
             await settle(self.loop)
+            if self.spin:
+                self.hang = True
+                break
             if self.settled():
                 if follow and self.connect_error is None:
                     await self._follow_up(follow)
